@@ -435,6 +435,32 @@ func isNullPredicate(f *ssa.Function) bool {
 		return false
 	}
 	p := ssa.Value(f.Params[0])
+	// a one-line wrapper "return isNull(x)" (possibly around reflect.ValueOf) is what it wraps
+	if len(f.Blocks) == 1 && f.Pkg != nil && isOrda(f.Pkg.Pkg.Path()) {
+		var only *ssa.Call
+		n := 0
+		for _, in := range f.Blocks[0].Instrs {
+			if c, isCall := in.(*ssa.Call); isCall {
+				if g := c.Call.StaticCallee(); g != nil && g != f && g.Pkg != nil && isOrda(g.Pkg.Pkg.Path()) {
+					only = c
+					n++
+				}
+			}
+		}
+		if n == 1 {
+			if ret, isRet := f.Blocks[0].Instrs[len(f.Blocks[0].Instrs)-1].(*ssa.Return); isRet && len(ret.Results) == 1 && ret.Results[0] == ssa.Value(only) {
+				takes := false
+				for _, a := range only.Call.Args {
+					if stripIface(throughValueOf(a)) == p || throughValueOf(a) == p {
+						takes = true
+					}
+				}
+				if takes && isNullPredicate(only.Call.StaticCallee()) {
+					return true
+				}
+			}
+		}
+	}
 	for _, b := range f.Blocks {
 		if len(b.Instrs) == 0 {
 			continue
@@ -495,13 +521,36 @@ func isNullPredicate(f *ssa.Function) bool {
 			// that a nil slice and a nil map are encoded as null too (F46): the kinds Ptr, Slice and Map are all tested
 			ptr := false
 			kinds := map[int64]bool{}
-			forEachOwnInstr(f, func(in ssa.Instruction) {
+			// (the kind tests may sit in a small new helper that is handed rv.Kind())
+			var fns []*ssa.Function
+			fns = append(fns, f)
+			for _, c := range ownCallsIn(f) {
+				if h := staticCallee(c); h != nil && flattenable[h] {
+					fns = append(fns, h)
+				}
+			}
+			var instrs []ssa.Instruction
+			for _, g := range fns {
+				forEachOwnInstr(g, func(in ssa.Instruction) { instrs = append(instrs, in) })
+			}
+			each := func(visit func(ssa.Instruction)) {
+				for _, in := range instrs {
+					visit(in)
+				}
+			}
+			each(func(in ssa.Instruction) {
 				if c, ok := in.(ssa.CallInstruction); ok && (calleeName(c) == "IsNil" || calleeName(c) == "Elem") {
 					ptr = true
 				}
 				if b, ok := in.(*ssa.BinOp); ok && (b.Op == token.EQL || b.Op == token.NEQ) {
 					for _, pair := range [][2]ssa.Value{{b.X, b.Y}, {b.Y, b.X}} {
-						if call, isCall := pair[0].(*ssa.Call); isCall && calleeName(call) == "Kind" {
+						subject := pair[0]
+						if prm, isPrm := subject.(*ssa.Parameter); isPrm {
+							if args := helperArgs(prm); len(args) > 0 {
+								subject = args[0]
+							}
+						}
+						if call, isCall := subject.(*ssa.Call); isCall && calleeName(call) == "Kind" {
 							if k, isK := constInt(pair[1]); isK {
 								kinds[k] = true
 							}
